@@ -25,7 +25,13 @@ The subset is deliberately strict: whatever is not listed here makes the functio
                xs[i] (raising outside the range, negative indices as Python), xs[a:b] (clamped as Python; no step)
   partiality   an operation that can raise makes the function `Option`-valued (`none` = an exception); it must not sit under a
                short-circuit (`and` / `or` / conditional expression), where evaluation order would matter
-  extraction   besides whole functions, three patterns pick a piece of a bigger function: the test of the `if` inside the only `for`
+  statements+  (round 15) chained assignment `a = b = v` (v not a list), `xs.append(v)` / `xs.extend(ys)` on a list local (a rebinding; a
+               list local is never bound to another list *name*, so no two names can share one list), `'..%d..%s..' % v` / `% (v, w)` with
+               %d / %u on ints and %s on strs, `<` `<=` `>` `>=` on strs (code-point order, `Text.ltStr`), `xs.index(v)` (raising when absent),
+               `min(a, b)` / `max(a, b)` on ints
+  extraction   besides whole functions, these patterns pick a piece of a bigger function (`block`: the statements chosen by the selectors
+               of the table, in source order, as a function from the typed free variables to the tuple of the `out` locals; `lambda`: the
+               only lambda expression of a function): the test of the `if` inside the only `for`
                of a nested function (`for-if-test`), an `if/elif` chain whose tests read one local only (`if-chain`: the index of the
                branch taken), the right-hand side of the only assignment to a local (`assign-expr`); the free variables are typed by the table.
 
@@ -59,6 +65,34 @@ FUNCTIONS = [
     ('ssh1_crc32_calc', 'ssh1_crc32.py', 'SSH1_CRC32.calc', {'attrs': {'_table': 'ssh1_crc32_table'}, 'unit': 'LogicCrc'}),
     ('gex_size_class', 'gextest.py', 'GEXTest.run', {'extract': 'if-chain', 'var': 'smallest_modulus', 'params': ['int']}),
     ('mpint_length', 'writebuf.py', 'WriteBuf._create_mpint', {'extract': 'assign-expr', 'var': 'length', 'free': {'bits': 'int', 'n': 'int'}}),
+    # ---- round 15: blocks and lambdas (unit Logic2: theorems in Props/GenLogic2.lean)
+    ('hostkey_comments', 'hostkeytest.py', 'HostKeyTest.perform_test', {'unit': 'Logic2', 'extract': 'block', 'select': [('if', 'hostkey_min_good', ['hostkey_modulus_size', 'ca_modulus_size'])],
+        'free': {'host_key_type': 'str', 'cert': 'bool', 'hostkey_modulus_size': 'int', 'ca_key_type': 'str', 'ca_modulus_size': 'int',
+                 'key_fail_comments': 'List[str]', 'key_warn_comments': 'List[str]'},
+        'out': ['key_fail_comments', 'key_warn_comments']}),
+    ('send_packet_framing', 'ssh_socket.py', 'SSH_Socket.send_packet', {'unit': 'Logic2', 'extract': 'block',
+        'select': [('assign', 'padding', 0, 2), ('if-assigning', 'padding'), ('assign', 'plen')], 'free': {'payload': 'bytes'}, 'out': ['padding', 'plen']}),
+    ('status_step', 'ssh_audit.py', 'output_algorithm', {'unit': 'Logic2', 'extract': 'block', 'select': [('if', 'program_retval', ['level'])],
+        'free': {'level': 'str', 'program_retval': 'int'}, 'out': ['program_retval']}),
+    ('rank_step', 'ssh_audit.py', 'main', {'unit': 'Logic2', 'extract': 'block',
+        'select': [('assign', 'ranked_return_codes'), ('if', 'ret', ['ranked_return_codes', 'worker_ret', 'ret'])],
+        'free': {'worker_ret': 'int', 'ret': 'int'}, 'out': ['ret']}),
+    ('gex_early_exit', 'gextest.py', 'GEXTest.run', {'unit': 'Logic2', 'extract': 'if-test', 'names': ['bits', 'smallest_modulus'],
+        'free': {'bits': 'int', 'smallest_modulus': 'int'}}),
+    ('gex_followup_updated', 'gextest.py', 'GEXTest.run', {'unit': 'Logic2', 'extract': 'assign-expr', 'var': 'openssh_test_updated', 'count': 2, 'nth': 1,
+        'free': {'smallest_modulus': 'int'}}),
+    ('port_out_of_range', 'auditconf.py', 'AuditConf.__setattr__', {'unit': 'Logic2', 'extract': 'if-test', 'names': ['port'], 'free': {'port': 'int'}}),
+    ('read_packet2_lengths', 'ssh_socket.py', 'SSH_Socket.read_packet', {'unit': 'Logic2', 'extract': 'block',
+        'select': [('assign', 'payload_length', 1, 2), ('assign', 'check_size', 1, 2)], 'free': {'packet_length': 'int', 'padding_length': 'int'},
+        'out': ['payload_length', 'check_size']}),
+    ('read_packet1_lengths', 'ssh_socket.py', 'SSH_Socket.read_packet', {'unit': 'Logic2', 'extract': 'block',
+        'select': [('assign', 'padding_length', 0, 2), ('assign', 'payload_length', 0, 2), ('assign', 'check_size', 0, 2)], 'free': {'packet_length': 'int'},
+        'out': ['padding_length', 'payload_length', 'check_size']}),
+    ('read_packet_bad_block', 'ssh_socket.py', 'SSH_Socket.read_packet', {'unit': 'Logic2', 'extract': 'if-test', 'names': ['check_size', 'self'],
+        'free': {'check_size': 'int', 'self.__block_size': 'int'}}),
+    ('read_packet_bad_length', 'ssh_socket.py', 'SSH_Socket.read_packet', {'unit': 'Logic2', 'extract': 'if-test', 'names': ['payload_length', 'sshv'],
+        'free': {'payload_length': 'int', 'sshv': 'int'}}),
+    ('is_print_ascii_char', 'utils.py', 'Utils.is_print_ascii', {'unit': 'Logic2', 'extract': 'lambda', 'params': ['int']}),
     # candidates that are outside the subset (kept in the table so that the reason is reported on every run)
     ('ctoi', 'utils.py', 'Utils.ctoi', {}),
     ('parse_int', 'utils.py', 'Utils.parse_int', {}),
@@ -144,7 +178,8 @@ def parse_annotation(a):
 
 
 def type_of_name(s):
-    return {'int': INT, 'str': STR, 'bool': BOOL, 'bytes': BYTES, 'List[str]': tlist(STR), 'List[int]': tlist(INT)}[s]
+    return {'int': INT, 'str': STR, 'bool': BOOL, 'bytes': BYTES, 'List[str]': tlist(STR), 'List[int]': tlist(INT),
+            'Optional[str]': topt(STR), 'Optional[int]': topt(INT)}[s]
 
 
 # ---------------------------------------------------------------- Lean literals
@@ -579,6 +614,9 @@ class Tr:
                 if ta != tb or ta == NONE or ta[0] in ('opt', 'tuple'):
                     bad(node, '== / != between values of different or unsupported types')
                 parts.append('(%s %s %s)' % (a, '==' if isinstance(op, ast.Eq) else '!=', b))
+            elif isinstance(op, (ast.Lt, ast.LtE, ast.Gt, ast.GtE)) and ta == STR and tb == STR:
+                parts.append({ast.Lt: '(Text.ltStr %s %s)', ast.Gt: '(Text.ltStr %s %s)', ast.LtE: '(!(Text.ltStr %s %s))', ast.GtE: '(!(Text.ltStr %s %s))'}[type(op)]
+                             % ((a, b) if isinstance(op, (ast.Lt, ast.GtE)) else (b, a)))
             elif isinstance(op, (ast.Lt, ast.LtE, ast.Gt, ast.GtE)):
                 if ta != INT or tb != INT:
                     bad(node, 'ordering comparison of values that are not ints')
@@ -604,6 +642,8 @@ class Tr:
             if tn != INT or tv not in (INT, STR):
                 bad(node, 'list repetition outside the subset')
             return '(Py.replicate %s %s)' % (n, v), tlist(tv)
+        if isinstance(op, ast.Mod) and isinstance(node.left, ast.Constant) and isinstance(node.left.value, str):
+            return self.percent_format(node, env, binds)
         a, ta = self.expr(node.left, env, binds)
         b, tb = self.expr(node.right, env, binds)
         if isinstance(op, ast.Add) and ta == tb and (ta in (STR, BYTES) or ta[0] == 'list'):
@@ -642,6 +682,47 @@ class Tr:
             return '(Py.bxor %s %s)' % (a, b), INT
         bad(node, 'binary operator %s' % type(op).__name__)
 
+    def percent_format(self, node, env, binds):
+        tmpl = node.left.value
+        argn = list(node.right.elts) if isinstance(node.right, ast.Tuple) else [node.right]
+        args = [self.expr(a, env, binds) for a in argn]
+        out, i, n, lit_run = [], 0, 0, ''
+        while i < len(tmpl):
+            ch = tmpl[i]
+            if ch != '%':
+                lit_run += ch
+                i += 1
+                continue
+            if i + 1 >= len(tmpl):
+                bad(node, 'format template ending in %')
+            spec = tmpl[i + 1]
+            i += 2
+            if spec == '%':
+                lit_run += '%'
+                continue
+            if spec not in 'dus':
+                bad(node, 'format specification %%%s is outside the subset (only %%d %%u %%s %%%%)' % spec)
+            if n >= len(args):
+                bad(node, 'more format fields than arguments')
+            c, t = args[n]
+            n += 1
+            if lit_run:
+                out.append(lit(lit_run, node)[0])
+                lit_run = ''
+            if spec in 'du':
+                if t != INT:
+                    bad(node, '%%%s of a value that is not an int' % spec)
+                out.append('(Py.fmtD %s)' % c)
+            else:
+                if t != STR:
+                    bad(node, '%s of a value that is not a str')
+                out.append(c)
+        if n != len(args):
+            bad(node, 'more arguments than format fields')
+        if lit_run:
+            out.append(lit(lit_run, node)[0])
+        return ('(' + ' ++ '.join(out) + ')' if out else '([] : Str)'), STR
+
     def call(self, node, env, binds):
         if node.keywords:
             bad(node, 'keyword arguments')
@@ -654,6 +735,8 @@ class Tr:
                 return self.partial(node, binds, '%s %s' % ('Py.ordS' if args[0][1] == STR else 'Py.ordB', args[0][0])), INT
             if f.id == 'bool' and len(args) == 1 and args[0][1] == BOOL:
                 return args[0][0], BOOL
+            if f.id in ('min', 'max') and len(args) == 2 and args[0][1] == INT and args[1][1] == INT:
+                return '(%s %s %s)' % (f.id, args[0][0], args[1][0]), INT
             if f.id == 'int':
                 bad(node, 'int(): parsing as CPython does (Unicode digits, white space, sign, underscores) is not modelled')
             bad(node, 'call of %s' % f.id)
@@ -680,6 +763,8 @@ class Tr:
                 return '(Text.%s %s %s)' % ('startsWith' if meth == 'startswith' else 'endsWith', recv, args[0][0]), BOOL
             if meth == 'join' and tr_ == STR and len(args) == 1 and args[0][1] == tlist(STR):
                 return '(Text.join %s %s)' % (recv, args[0][0]), STR
+            if meth == 'index' and tr_[0] == 'list' and len(args) == 1 and args[0][1] == tr_[1]:
+                return self.partial(node, binds, 'Py.indexOf %s %s' % (recv, args[0][0])), INT
             bad(node, 'method call .%s(...) is outside the subset' % meth)
         bad(node, 'call')
 
@@ -754,6 +839,9 @@ class Tr:
                     add(n.target)
                 elif isinstance(n, ast.For):
                     add(n.target)
+                elif isinstance(n, ast.Expr) and isinstance(n.value, ast.Call) and isinstance(n.value.func, ast.Attribute) \
+                        and n.value.func.attr in ('append', 'extend') and isinstance(n.value.func.value, ast.Name):
+                    add(n.value.func.value)
         return out
 
     def target_key(self, t):
@@ -780,6 +868,24 @@ class Tr:
             return self.block(rest, env, k)
         if isinstance(s, ast.Pass):
             return self.block(rest, env, k)
+        if isinstance(s, ast.Expr) and isinstance(s.value, ast.Call) and isinstance(s.value.func, ast.Attribute) \
+                and s.value.func.attr in ('append', 'extend') and isinstance(s.value.func.value, ast.Name):
+            call = s.value
+            key = call.func.value.id
+            if key not in env or env[key][1][0] != 'list' or len(call.args) != 1 or call.keywords:
+                bad(s, '.%s() on something that is not a list local' % call.func.attr)
+            binds = []
+            v, tv = self.expr(call.args[0], env, binds)
+            lt = env[key][1]
+            if call.func.attr == 'append':
+                if tv != lt[1]:
+                    bad(s, 'append of a value of another type')
+                term = '(%s ++ [%s])' % (env[key][0], v)
+            else:
+                if tv != lt:
+                    bad(s, 'extend by a value of another type')
+                term = '(%s ++ %s)' % (env[key][0], v)
+            return self.wrap(binds, self.bind_var(key, term, lt, env, lambda e: self.block(rest, e, k)))
         if isinstance(s, ast.Return):
             if s.value is None:
                 bad(s, 'return without a value')
@@ -807,7 +913,23 @@ class Tr:
             return self.block([s2] + rest, env, k)
         if isinstance(s, ast.Assign):
             if len(s.targets) != 1:
-                bad(s, 'chained assignment')
+                # a = b = v: v is evaluated once, then bound left to right
+                if not all(isinstance(t, ast.Name) for t in s.targets):
+                    bad(s, 'chained assignment to something other than plain names')
+                binds = []
+                c, t = self.expr(s.value, env, binds)
+                if t[0] == 'list' or t == NONE:
+                    bad(s, 'chained assignment of a list (two names would share it) or of None')
+                keys = [self.target_key(t_) for t_ in s.targets]
+                for key in keys:
+                    if key in env and env[key][1] != t:
+                        bad(s, 'local %s changes its type' % key)
+
+                def chain2(i, e):
+                    if i == len(keys):
+                        return self.block(rest, e, k)
+                    return self.bind_var(keys[i], c, t, e, lambda e2: chain2(i + 1, e2))
+                return self.wrap(binds, chain2(0, env))
             tgt = s.targets[0]
             if isinstance(tgt, ast.Tuple):
                 if not isinstance(s.value, ast.Tuple) or len(s.value.elts) != len(tgt.elts):
@@ -842,6 +964,8 @@ class Tr:
             key = self.target_key(tgt)
             binds = []
             c, t = self.expr(s.value, env, binds)
+            if t[0] == 'list' and isinstance(s.value, ast.Name) and s.value.id in env:
+                bad(s, 'a list local bound to another list local (the two names would share one list)')
             if key in env and env[key][1] != t:
                 old = env[key][1]
                 if old[0] == 'opt' and (t == NONE or t == old[1]):
@@ -1011,6 +1135,80 @@ class Tr:
         return self.wrap(binds, ('loop', fresh, types, lamvar, elt, body, inits, listterm, self.block(rest, env2, k)))
 
 
+# ---------------------------------------------------------------- statement selectors of the `block` extraction
+
+def statement_lists(func):
+    """every statement list inside the function (bodies of if / for / while / with / try), not those of nested defs / classes"""
+    out = []
+
+    def visit(stmts):
+        out.append(stmts)
+        for st in stmts:
+            if isinstance(st, (ast.FunctionDef, ast.ClassDef, ast.AsyncFunctionDef)):
+                continue
+            for field in ('body', 'orelse', 'finalbody'):
+                sub = getattr(st, field, None)
+                if isinstance(sub, list) and sub and isinstance(sub[0], ast.stmt):
+                    visit(sub)
+            for h in getattr(st, 'handlers', []) or []:
+                visit(h.body)
+    visit(func.body)
+    return out
+
+
+def directly_assigns(st, var):
+    if isinstance(st, ast.Assign):
+        return any(isinstance(t, ast.Name) and t.id == var for t in st.targets) or \
+            any(isinstance(t, ast.Tuple) and any(isinstance(e, ast.Name) and e.id == var for e in t.elts) for t in st.targets)
+    if isinstance(st, (ast.AugAssign, ast.AnnAssign)):
+        return isinstance(st.target, ast.Name) and st.target.id == var
+    return False
+
+
+def names_in(node):
+    return {x.id for x in ast.walk(node) if isinstance(x, ast.Name)}
+
+
+def select_statements(func, selectors):
+    """the statements picked by the selectors, which must come out in source order:
+         ('assign', var)                    the only statement of the function that assigns the plain name var (any depth)
+         ('assign', var, nth, count)        the nth (from 0, in source order) of exactly `count` such statements
+         ('if', var, [names])               the only `if` statement (an `elif` is part of its `if`) with a direct assignment to var in its body
+                                            and whose test reads exactly the given names
+         ('if-assigning', var)              the only `if` statement whose body directly assigns var"""
+    lists = statement_lists(func)
+    elifs = set()
+    for sl in lists:
+        for st in sl:
+            if isinstance(st, ast.If) and len(st.orelse) == 1 and isinstance(st.orelse[0], ast.If):
+                elifs.add(id(st.orelse[0]))
+    picked = []
+    for sel in selectors:
+        hits = []
+        for sl in lists:
+            for st in sl:
+                if sel[0] == 'assign' and directly_assigns(st, sel[1]):
+                    hits.append(st)
+                elif sel[0] in ('if', 'if-assigning') and isinstance(st, ast.If) and id(st) not in elifs \
+                        and any(directly_assigns(b, sel[1]) for b in st.body):
+                    if sel[0] == 'if-assigning' or names_in(st.test) == set(sel[2]):
+                        hits.append(st)
+        hits.sort(key=lambda st: (st.lineno, st.col_offset))
+        if sel[0] == 'assign' and len(sel) == 4:
+            # ('assign', var, nth, count): the nth of exactly `count` statements assigning var
+            if len(hits) != sel[3]:
+                raise Untranslatable('selector %r matches %d statements (expected %d)' % (tuple(sel), len(hits), sel[3]))
+            picked.append(hits[sel[2]])
+            continue
+        if len(hits) != 1:
+            raise Untranslatable('selector %r matches %d statements (expected exactly one)' % (tuple(sel), len(hits)))
+        picked.append(hits[0])
+    lines = [st.lineno for st in picked]
+    if lines != sorted(lines) or len(set(lines)) != len(lines):
+        raise Untranslatable('the selected statements are not in source order')
+    return picked
+
+
 # ---------------------------------------------------------------- one table entry -> Lean def
 
 def unify_returns(tree):
@@ -1141,14 +1339,65 @@ def translate_entry(name, fname, qual, opts, known):
             if binds or t != BOOL:
                 raise Untranslatable('a test of the chain can raise or is not a bool')
             tree = ('if', c, ('ret', lit(i)[0], INT), tree)
+    elif kind == 'block':
+        stmts = select_statements(func, opts['select'])
+        for v, tn in opts['free'].items():
+            add_param(v, type_of_name(tn))
+        outs = opts['out']
+
+        def k_out(e):
+            vals = []
+            for o in outs:
+                if o not in e:
+                    raise Untranslatable('%s is not bound at the end of the block' % o)
+                vals.append(e[o])
+            return ('ret', tuple_term([v[0] for v in vals]) if len(vals) > 1 else vals[0][0],
+                    ttuple([v[1] for v in vals]) if len(vals) > 1 else vals[0][1])
+        for st in stmts:
+            for n in ast.walk(st):
+                if isinstance(n, ast.Return):
+                    raise Untranslatable('return inside the selected block')
+        tree = tr.block(stmts, env, k_out)
+    elif kind == 'if-test':
+        # the test of the only `if` / `elif` / `while` statement whose test reads exactly the names of the table (`self.x` counts as `self`)
+        want = set(opts['names'])
+        hits = [n for n in ast.walk(func) if isinstance(n, (ast.If, ast.While)) and names_in(n.test) == want]
+        if len(hits) != 1:
+            raise Untranslatable('expected exactly one if / while test over %s, found %d' % (sorted(want), len(hits)))
+        for v, tn in opts['free'].items():
+            if v.startswith('self.'):
+                nm = fn.fresh(v)
+                env[v] = (nm, type_of_name(tn))
+                params.append((nm, type_of_name(tn)))
+            else:
+                add_param(v, type_of_name(tn))
+        binds = []
+        c, t = tr.expr(hits[0].test, env, binds)
+        if t != BOOL:
+            raise Untranslatable('the test is not a bool')
+        tree = Tr.wrap(binds, ('ret', c, BOOL))
+    elif kind == 'lambda':
+        lams = [n for n in ast.walk(func) if isinstance(n, ast.Lambda)]
+        if len(lams) != 1:
+            raise Untranslatable('expected exactly one lambda, found %d' % len(lams))
+        la = lams[0].args
+        if la.vararg or la.kwarg or la.kwonlyargs or la.posonlyargs or la.defaults or len(la.args) != len(opts['params']):
+            raise Untranslatable('the lambda does not take exactly the %d plain parameters of the table' % len(opts['params']))
+        for a_, tn in zip(la.args, opts['params']):
+            add_param(a_.arg, type_of_name(tn))
+        binds = []
+        c, t = tr.expr(lams[0].body, env, binds)
+        tree = Tr.wrap(binds, ('ret', c, t))
     elif kind == 'assign-expr':
         var = opts['var']
         hits = [n for n in ast.walk(func) if isinstance(n, ast.Assign) and len(n.targets) == 1 and isinstance(n.targets[0], ast.Name) and n.targets[0].id == var]
         hits += [n for n in ast.walk(func) if isinstance(n, (ast.AugAssign, ast.AnnAssign)) and isinstance(n.target, ast.Name) and n.target.id == var]
-        if len(hits) != 1 or not isinstance(hits[0], ast.Assign):
-            raise Untranslatable('expected exactly one plain assignment to %s, found %d' % (var, len(hits)))
-        value = hits[0].value
-        free = sorted({x.id for x in ast.walk(value) if isinstance(x, ast.Name)})
+        hits.sort(key=lambda n: (n.lineno, n.col_offset))
+        want = opts.get('count', 1)
+        if len(hits) != want or not all(isinstance(h, ast.Assign) for h in hits):
+            raise Untranslatable('expected exactly %d plain assignment(s) to %s, found %d' % (want, var, len(hits)))
+        value = hits[opts.get('nth', 0)].value
+        free = sorted({x.id for x in ast.walk(value) if isinstance(x, ast.Name)} - {'bool', 'len', 'ord', 'min', 'max'})
         for v in free:
             if v not in opts['free']:
                 raise Untranslatable('the right-hand side reads %s, which the table does not type' % v)
@@ -1201,7 +1450,10 @@ def generate():
         except RecursionError:
             untranslatable[name] = 'source too deeply nested'
         if name in untranslatable:
-            out.append('/-- `%s` %s: untranslatable -/\ndef %s : Py.Untranslatable := ⟨%s⟩\n' % (fname, qual, name, json.dumps(untranslatable[name])))
+            import re as _re
+            # without the line number: an edit elsewhere in the file must not rewrite (and rebuild) the generated module
+            out.append('/-- `%s` %s: untranslatable -/\ndef %s : Py.Untranslatable := ⟨%s⟩\n'
+                       % (fname, qual, name, json.dumps(_re.sub(r' \(line \d+\)', '', untranslatable[name]))))
     return {u + '.lean': '\n'.join(parts + ['end SshAudit.Gen.Logic\n']) for u, parts in units.items()}, translated, untranslatable
 
 
